@@ -46,6 +46,8 @@ def gen(rs, tier):
     else:
         kw["first_transformer_cap"] = r.choice([45, 45, 30, round(r.uniform(15, 70), 1)])
         kw["third_fourth_transformer_cap"] = r.choice([150, 150, 100, round(r.uniform(50, 220), 1)])
+        if sub(rs, "equal_caps").random() < 0.12:
+            kw["third_fourth_transformer_cap"] = kw["first_transformer_cap"]       # both JPL transformers of the same rating
     sc = {"seed": rs, "site": site, "site_kwargs": kw, "mode": "sim" if rs % 6 == 0 else "climb", "json_restart": r.random() < 0.3,
           "site_alias": site == "caltech" and sub(rs, "alias").random() < 0.3,
           "climbs": r.randint(2, 4), "sort": r.choice(["fcfs", "lcfs", "llf", "edf", "lrpt"])}
